@@ -1,6 +1,8 @@
 //! qxv - conformance harness binding the TLA+ specification in /verif/spec to
 //! the real quick-xml code.  Sub-commands are invoked by /verif/check.
 mod attrs;
+#[cfg(feature = "enc")]
+mod enc;
 mod env;
 mod esc;
 mod gen;
@@ -122,6 +124,11 @@ fn main() {
             let still = writer::rerun(&get("file", ""));
             println!("{}", if still { "STILL-FAILS" } else { "PASSES-NOW" });
             std::process::exit(if still { 1 } else { 0 });
+        }
+        #[cfg(feature = "enc")]
+        "enc-record" => {
+            let s = enc::record(&get("out", "work/enc.ndjson"), seed, get("n", "10").parse().unwrap());
+            println!("SUMMARY {}", serde_json::to_string(&s).unwrap());
         }
         "reader-rerun" => {
             let still = replay_reader::rerun(&get("file", ""));
